@@ -30,6 +30,11 @@ variable {α : Type} [RealLike α]
 @[simp] theorem zeros_ok (r c : Nat) : (zeros r c : Arr α).ok = true := rfl
 @[simp] theorem zeros_get (r c i j : Nat) : (zeros r c : Arr α).get i j = 0 := rfl
 
+@[simp] theorem full_r (r c : Nat) (s : α) : (full r c s).r = r := rfl
+@[simp] theorem full_c (r c : Nat) (s : α) : (full r c s).c = c := rfl
+@[simp] theorem full_ok (r c : Nat) (s : α) : (full r c s).ok = true := rfl
+@[simp] theorem full_get (r c : Nat) (s : α) (i j : Nat) : (full r c s).get i j = s := rfl
+
 @[simp] theorem empty_r (junk : Nat → Nat → α) (r c : Nat) : (empty junk r c).r = r := rfl
 @[simp] theorem empty_c (junk : Nat → Nat → α) (r c : Nat) : (empty junk r c).c = c := rfl
 @[simp] theorem empty_ok (junk : Nat → Nat → α) (r c : Nat) : (empty junk r c).ok = true := rfl
